@@ -842,6 +842,9 @@ func (c *depCtx) compute(v ssa.Value) src {
 				case *ssa.Store:
 					if y.Addr == addr && c.blockOK(y) {
 						d |= c.deps(y.Val)
+						if y.Block() != x.Block() {
+							d |= c.ctrlDeps(y.Block()) // a member set under a condition carries the condition
+						}
 					}
 				case *ssa.FieldAddr:
 					visit(y, depth+1)
@@ -1275,6 +1278,22 @@ func (m *matrix) summary(f *ssa.Function, u *unit, spec bool, full bool) src {
 	c := m.ctx(f, uu)
 	c.noOpaque = full
 	var d src
+	// a helper that only computes a value: what the value is made of and what selects it (not everything the helper happens to read)
+	if f.Signature.Results().Len() > 0 && !m.emitsIntoOuterBuilder(f, 0) && !m.writesNonLocal(f) {
+		for _, b := range f.Blocks {
+			ret, ok := b.Instrs[len(b.Instrs)-1].(*ssa.Return)
+			if !ok || !m.feasible(f, b, uu) {
+				continue
+			}
+			for _, rv := range ret.Results {
+				d |= c.deps(rv)
+			}
+			d |= c.ctrlDeps(b)
+		}
+		delete(m.inprog, key)
+		m.summ[key] = d &^ sNAME
+		return m.summ[key]
+	}
 	forEachInstr(f, func(b *ssa.BasicBlock, ins ssa.Instruction) {
 		if !m.feasible(f, b, uu) {
 			return
@@ -1489,6 +1508,26 @@ func (m *matrix) emitsIntoOuterBuilder(g *ssa.Function, depth int) bool {
 	if res {
 		m.emitOuter[g] = 1
 	}
+	return res
+}
+
+// writesNonLocal: the function stores through a parameter, a captured variable or a global (its effect is not only its result).
+func (m *matrix) writesNonLocal(f *ssa.Function) bool {
+	res := false
+	forEachInstr(f, func(_ *ssa.BasicBlock, ins ssa.Instruction) {
+		switch x := ins.(type) {
+		case *ssa.Store:
+			switch valueRoot(x.Addr).(type) {
+			case *ssa.Parameter, *ssa.FreeVar, *ssa.Global:
+				res = true
+			}
+		case *ssa.MapUpdate:
+			switch valueRoot(x.Map).(type) {
+			case *ssa.Parameter, *ssa.FreeVar, *ssa.Global:
+				res = true
+			}
+		}
+	})
 	return res
 }
 
